@@ -461,8 +461,13 @@ class DecodeThread(threading.Thread):
                             buf += b
 
                     if len(buf) > 6:
-                        # noinspection PyProtectedMember
-                        self.decoder._decode_universal(buf, frequency)
+                        try:
+                            # noinspection PyProtectedMember
+                            self.decoder._decode_universal(buf, frequency)
+                        except Exception:  # NOQA
+                            # a signal nothing can make sense of must not
+                            # end the thread
+                            pass
                     self.decode_universal = False
                     continue
             else:
@@ -487,8 +492,13 @@ class DecodeThread(threading.Thread):
                 tmp_buf += [buf.pop(0)]
 
                 if len(tmp_buf) > 3 and tmp_buf[-1] < -2000:
-                    # noinspection PyProtectedMember
-                    if self.decoder._decode(tmp_buf[:], frequency):
+                    try:
+                        # noinspection PyProtectedMember
+                        decoded = self.decoder._decode(tmp_buf[:], frequency)
+                    except Exception:  # NOQA
+                        decoded = False
+
+                    if decoded:
                         del tmp_buf[:]
 
             if tmp_buf:
